@@ -267,10 +267,11 @@ class ReplaceStringTransformation(StringValueTransformation):
                     return val
                 replaced = self.re.sub(self.replacement, sigma_string_plain)
                 postprocessed_backslashes = re.sub(r"\\(?![*?])", r"\\\\", replaced)
+                # The result is a string of the same class (e.g. a case-sensitive one).
                 if val.contains_placeholder():  # Preserve placeholders
-                    return SigmaString(postprocessed_backslashes).insert_placeholders()
+                    return val.__class__(postprocessed_backslashes).insert_placeholders()
                 else:
-                    return SigmaString(postprocessed_backslashes)
+                    return val.__class__(postprocessed_backslashes)
 
 
 @dataclass
@@ -285,10 +286,11 @@ class MapStringTransformation(StringValueTransformation):
         self, field: str | None, val: SigmaString
     ) -> (SigmaType | list[SigmaType]) | None:
         mapped = self.mapping.get(str(val), None)
+        # The mapped strings are of the same class as the value (e.g. case-sensitive ones).
         if isinstance(mapped, str):
-            return SigmaString(mapped)
+            return val.__class__(mapped)
         elif isinstance(mapped, list):
-            return [SigmaString(item) for item in mapped]
+            return [val.__class__(item) for item in mapped]
         else:
             return None
 
